@@ -124,7 +124,7 @@ def instances(rule, max_n=8):
                     env[v] = preds(pool(v), k + (sum(map(ord, v)) % 5))
             elif so == "E":
                 idx = int(v[-1]) - 1 if v[-1].isdigit() else 0
-                constrained = any(c["args"] and c["args"][0] == v and c["fn"] in ("not_depend_on", "all_depend_on") for c in rule["conds"])
+                constrained = any(c["args"] and c["args"][0] == v for c in rule["conds"])
                 if constrained:
                     # whatever the rule's conditions allow: a column, or (every other instance) an
                     # expression over columns of two inputs when the conditions do not forbid it
